@@ -4,12 +4,14 @@ import KyberModel.Drive.Share
 import KyberModel.Drive.Pvss
 import KyberModel.Drive.Dss
 import KyberModel.Drive.Decode
+import KyberModel.Drive.Embed
 import KyberModel.Drive.Bls
 import KyberModel.Drive.Pairing
 import KyberModel.Drive.Xof
 import KyberModel.Drive.Enc
 import KyberModel.Drive.Vss
 import KyberModel.Drive.Sigma
+import KyberModel.Drive.Shuffle
 import KyberModel.Drive.Sha
 import KyberModel.Drive.Sig
 import KyberModel.Drive.Dkg
@@ -29,6 +31,11 @@ def dispatch (line : String) : String :=
   | "dec" :: args => handleDec args
   | "decsc" :: args => handleDecSc args
   | "parse" :: args => handleParse args
+  | "embed" :: args => handleEmbed args
+  | "pick" :: args => handlePick args
+  | "data" :: args => handleData args
+  | "mem" :: args => handleMem args
+  | "h2c" :: args => handleH2c args
   | "c09" :: args => handleC09 args
   | "c06" :: args => handleC06 args
   | "xof" :: args => handleXof args
@@ -37,6 +44,7 @@ def dispatch (line : String) : String :=
   | "vss" :: args => handleVss args
   | "dkg" :: args => handleDkg args
   | "sigma" :: args => handleSigma args
+  | "shuffle" :: args => handleShuffle args
   | "sha" :: args => handleSha args
   | "sig" :: args => handleSig args
   | _ => badOp
